@@ -397,6 +397,8 @@ class Twin:
             arr[r, c] = vol_float(k, self.unit)
             if names[i] is not None:
                 cn[wid(r, c)] = names[i]
+            elif spec.get("none_keys") and k > 0:
+                cn[wid(r, c)] = None  # "no name given" spelled as an explicit None
         kw = {"component_names": cn} if cn else {}
         return rt.Labware(spec["name"], R, C, min_volume=minv, max_volume=maxv, initial_volumes=arr, **kw)
 
@@ -604,6 +606,12 @@ class Twin:
                     lw.condense_log(op["n"])
             elif name == "emit":
                 a = self._emit(op)
+            elif name == "setlimits":
+                # the public limit attributes of a labware are assigned between operations
+                lw = self.lws[op["lw"]]
+                a = {"lw": op["lw"] + 1, "minv": op["minv"], "maxv": op["maxv"]}
+                lw.min_volume = vol_float(op["minv"], unit)
+                lw.max_volume = vol_float(op["maxv"], unit)
             elif name == "setconfig":
                 # the public attributes of the worklist are assigned between operations
                 new = dict(self.cfg)
